@@ -106,6 +106,21 @@ def fam_if_commented(n):
     return _nest(lambda i: "! level %d\n%sif (a%d > 0) then" % (i, "  " * (i + 1), i), lambda i: "end if ! %d" % i, n)
 
 
+def fam_paren_dotted(n):
+    """nested parentheses with a dotted operator on every level"""
+    e = "b"
+    for i in range(n):
+        e = "a%d .and. (%s)" % (i, e)
+    return "program p\n  x = " + e + "\nend program p\n"
+
+
+def fam_paren_rel(n):
+    e = "i .lt. j"
+    for i in range(n):
+        e = "a%d .or. (%s)" % (i, e)
+    return "program p\n  if (" + e + ") x = 1\nend program p\n"
+
+
 def fam_long_expr(n):
     return "program p\n  x = " + " + ".join("a%d * b%d" % (i, i) for i in range(n)) + "\nend program p\n"
 
@@ -139,6 +154,8 @@ FAMILIES = {
     "repeat-nonblock-do": (fam_repeat_nonblock, 1, 32, 128),
     "repeat-nonblock-do+comments": (fam_repeat_nonblock_commented, 1, 32, 128),
     "nested-if+comments": (fam_if_commented, 1, 32, 128),
+    "nested-paren-dotted": (fam_paren_dotted, 1, 32, 64),
+    "nested-paren-relational": (fam_paren_rel, 1, 32, 64),
     "long-expression": (fam_long_expr, 1, 64, 256),
     "long-arglist": (fam_args, 1, 64, 256),
     "continued-statement": (fam_continued, 1, 64, 256),
